@@ -813,9 +813,23 @@ func builtinLenLessThanOrEqual(_ *lisp.LEnv, args *lisp.LVal) *lisp.LVal {
 	return lenConstraint(args, func(length, comparison int) bool { return length > comparison })
 }
 
+// numberOrder orders a validated number against a bound the way the language's
+// own < and > do: two ints are compared as ints -- exactly, also above 2^53,
+// where float64 no longer tells neighbouring integers apart and (s:gt
+// 9007199254740992) refused 9007199254740993 -- and anything else as float64,
+// x and y being the two values as GoFloat64 gives them.  Every relation is
+// false when either float is NaN.
+func numberOrder(input, bound *lisp.LVal, x, y float64) (less, equal, greater bool) {
+	if input.Type == lisp.LInt && bound.Type == lisp.LInt {
+		return input.Int < bound.Int, input.Int == bound.Int, input.Int > bound.Int
+	}
+	return x < y, x == y, x > y
+}
+
 // Checks value is greater than specified value
 func builtinGreaterThan(_ *lisp.LEnv, args *lisp.LVal) *lisp.LVal {
-	comparison, ok := lisp.GoFloat64(args.Cells[0])
+	bound := args.Cells[0]
+	comparison, ok := lisp.GoFloat64(bound)
 	if !ok {
 		return lisp.ErrorConditionf(BadArgs, "You cannot compare %v to a number", args.Cells[0])
 	}
@@ -828,7 +842,7 @@ func builtinGreaterThan(_ *lisp.LEnv, args *lisp.LVal) *lisp.LVal {
 		// Written as "fail unless the relation holds", here and in the five
 		// constraints below: every comparison with NaN is false, so "fail if
 		// the opposite relation holds" let NaN through every bound at once.
-		if !(compareTo > comparison) {
+		if _, _, greater := numberOrder(input, bound, compareTo, comparison); !greater {
 			return lisp.ErrorConditionf(FailedConstraint, "Supplied value was less than the allowed value")
 		}
 		return lisp.Nil()
@@ -837,7 +851,8 @@ func builtinGreaterThan(_ *lisp.LEnv, args *lisp.LVal) *lisp.LVal {
 
 // Checks value is greater or equal than specified value
 func builtinGreaterThanOrEqual(_ *lisp.LEnv, args *lisp.LVal) *lisp.LVal {
-	comparison, ok := lisp.GoFloat64(args.Cells[0])
+	bound := args.Cells[0]
+	comparison, ok := lisp.GoFloat64(bound)
 	if !ok {
 		return lisp.ErrorConditionf(BadArgs, "You cannot compare %v to a number", args.Cells[0])
 	}
@@ -847,7 +862,7 @@ func builtinGreaterThanOrEqual(_ *lisp.LEnv, args *lisp.LVal) *lisp.LVal {
 		if !ok {
 			return lisp.ErrorConditionf(FailedConstraint, "Value cannot be compared")
 		}
-		if !(compareTo >= comparison) {
+		if _, equal, greater := numberOrder(input, bound, compareTo, comparison); !(greater || equal) {
 			return lisp.ErrorConditionf(FailedConstraint, "Supplied value %v was less than the allowed value %v", compareTo, comparison)
 		}
 		return lisp.Nil()
@@ -856,7 +871,8 @@ func builtinGreaterThanOrEqual(_ *lisp.LEnv, args *lisp.LVal) *lisp.LVal {
 
 // Checks value is less than specified value
 func builtinLessThan(_ *lisp.LEnv, args *lisp.LVal) *lisp.LVal {
-	comparison, ok := lisp.GoFloat64(args.Cells[0])
+	bound := args.Cells[0]
+	comparison, ok := lisp.GoFloat64(bound)
 	if !ok {
 		return lisp.ErrorConditionf(BadArgs, "You cannot compare %v to a number", args.Cells[0])
 	}
@@ -866,7 +882,7 @@ func builtinLessThan(_ *lisp.LEnv, args *lisp.LVal) *lisp.LVal {
 		if !ok {
 			return lisp.ErrorConditionf(FailedConstraint, "Value cannot be compared")
 		}
-		if !(compareTo < comparison) {
+		if less, _, _ := numberOrder(input, bound, compareTo, comparison); !less {
 			return lisp.ErrorConditionf(FailedConstraint, "Supplied value was greater than the allowed value")
 		}
 		return lisp.Nil()
@@ -875,7 +891,8 @@ func builtinLessThan(_ *lisp.LEnv, args *lisp.LVal) *lisp.LVal {
 
 // Checks value is less than or equal specified value
 func builtinLessThanOrEqual(_ *lisp.LEnv, args *lisp.LVal) *lisp.LVal {
-	comparison, ok := lisp.GoFloat64(args.Cells[0])
+	bound := args.Cells[0]
+	comparison, ok := lisp.GoFloat64(bound)
 	if !ok {
 		return lisp.ErrorConditionf(BadArgs, "You cannot compare %v to a number", args.Cells[0])
 	}
@@ -885,7 +902,7 @@ func builtinLessThanOrEqual(_ *lisp.LEnv, args *lisp.LVal) *lisp.LVal {
 		if !ok {
 			return lisp.ErrorConditionf(FailedConstraint, "Value cannot be compared")
 		}
-		if !(compareTo <= comparison) {
+		if less, equal, _ := numberOrder(input, bound, compareTo, comparison); !(less || equal) {
 			return lisp.ErrorConditionf(FailedConstraint, "Supplied value was greater than the allowed value")
 		}
 		return lisp.Nil()
